@@ -1,4 +1,179 @@
-import Abverif.Model.SessSpec
+import Abverif.Proofs.Lemmas.SessGone
+/-
+C11 — events reach exactly the handlers subscribed at that moment.
+
+Statements about `Model/Session.lean` (EVENT branch = `dispatch`, with the live-list cursor and the aliased kwargs
+dict explicit; `apiUnsubscribe`; the Subscribed/Unsubscribed branches) for every state / history, both scheduling modes
+and every behaviour of the handlers. The reference fan-out is `SessSpec.fanout`.
+-/
 namespace Abverif.Session
-theorem placeholder_c11 : True := trivial
+open Abverif.SessCodes Abverif.SessSpec
+
+/-! ## unsubscribe_sent_iff_last -/
+
+theorem findSub_some {o : Nat} {subs : List (SubId × List SubRec)} {sid : SubId} (h : findSub o subs = some sid) :
+    ∃ l, alookup sid subs = some l ∧ ∃ r ∈ l, r.obj = o := by
+  have := List.find?_some h
+  cases hl : alookup sid subs with
+  | none => simp [hl] at this
+  | some l =>
+    refine ⟨l, rfl, ?_⟩
+    simp only [hl, Option.getD_some, List.any_eq_true, beq_iff_eq] at this
+    exact this
+
+/-- `unsubscribe_sent_iff_last`: `Subscription.unsubscribe()` on an attached handler (transport up) removes exactly that
+handler from the list of its subscription id, and hands an UNSUBSCRIBE (for that id, with the next request id) to the
+transport **iff** the list is empty afterwards, i.e. iff it was the last handler; otherwise nothing is sent and the call
+returns an already completed future carrying the number of handlers left. -/
+theorem unsubscribe_sent_iff_last (s : Sess) (o : Nat) (snd : SendRes) (sid : SubId) (l : List SubRec)
+    (hf : findSub o s.subs = some sid) (hl : alookup sid s.subs = some l) (ht : s.transport = true) :
+    let res := apiStep s (.unsubscribe o snd)
+    alookup sid res.1.subs = some (removeObj o l) ∧
+    (removeObj o l = [] → sends res.2 = [{ typ := .unsubscribe, req := s.drawId.2, uri := sid }]) ∧
+    (removeObj o l ≠ [] → sends res.2 = [] ∧
+      completions res.2 = [(s.futs.length, .value (.int (removeObj o l).length))]) := by
+  have hsub : ∀ s1 : Sess, s1.subs = aupd sid (removeObj o l) s.subs → alookup sid s1.subs = some (removeObj o l) := by
+    intro s1 e; rw [e, alookup_aupd_self, hl]; rfl
+  have hnt : (!s.transport) = false := by simp [ht]
+  simp only [apiStep, apiUnsubscribe, hf, hnt, hl, Option.getD_some, Bool.false_eq_true, ↓reduceIte]
+  by_cases he : (removeObj o l).isEmpty = true
+  · simp only [he, ↓reduceIte]
+    have he' : removeObj o l = [] := by simpa using he
+    refine ⟨?_, ?_, fun h => absurd he' h⟩
+    · apply hsub; exact (request_fields _ _ _ _ _ _).2.1
+    · intro _; cases snd <;> simp [request, sendReq, sends, Sess.drawId]
+  · have he' : removeObj o l ≠ [] := by simpa using he
+    simp only [he, Bool.false_eq_true, ↓reduceIte]
+    refine ⟨?_, fun h => absurd h he', fun _ => ?_⟩
+    · apply hsub
+      unfold futureSuccess
+      exact (emitCb_fields _ _).2.1
+    · unfold futureSuccess
+      obtain ⟨_, _, _, _, f5, _⟩ := emitCb_fields
+        { ({ s with subs := aupd sid (removeObj o l) s.subs } : Sess) with
+          futs := s.futs ++ [{ kind := .unsubscribe, cell := some (.value (.int (removeObj o l).length)), count := 1 }] }
+        (.callback s.futs.length (.value (.int (removeObj o l).length)))
+      rcases f5 with e | e <;> simp [sends, completions, e]
+
+/-- non-vacuity: three handlers on id 77; only the third removal sends UNSUBSCRIBE -/
+example : sends (runOuts (init .sync) [.open_, .msg (.welcome 1) [], .api (.subscribe 1 9 none .ok), .api (.subscribe 2 9 none .ok),
+      .api (.subscribe 3 9 none .ok), .msg (.subscribed 1 77) [], .msg (.subscribed 2 77) [], .msg (.subscribed 3 77) [],
+      .api (.unsubscribe 1 .ok), .api (.unsubscribe 0 .ok), .api (.unsubscribe 2 .ok)]) =
+    [{ typ := .hello }, { typ := .subscribe, req := 1, uri := 9 }, { typ := .subscribe, req := 2, uri := 9 },
+     { typ := .subscribe, req := 3, uri := 9 }, { typ := .unsubscribe, req := 4, uri := 77 }] := by decide
+
+/-! ## event_during_unsubscribe_dropped / event_unknown_sub_is_violation -/
+
+/-- `event_during_unsubscribe_dropped`: while the UNSUBSCRIBE of an id is outstanding (its handler list is empty but
+still there) an EVENT for that id is dropped silently: no output, no state change. -/
+theorem event_during_unsubscribe_dropped (s : Sess) (sid : Nat) (hs : s.sessionId = some sid) (sub : SubId) (pub : Nat)
+    (p : Payload) (beh : List HAct) (h : alookup sub s.subs = some []) :
+    step s (.msg (.event sub pub p) beh) = (s, []) := by
+  simp [step, onMessage, hs, onEstablished, h, dispatch]
+
+/-- `event_unknown_sub_is_violation`: an EVENT for an id the session does not hold raises `ProtocolError` out of
+`onMessage` and changes nothing. -/
+theorem event_unknown_sub_is_violation (s : Sess) (sid : Nat) (hs : s.sessionId = some sid) (sub : SubId) (pub : Nat)
+    (p : Payload) (beh : List HAct) (h : alookup sub s.subs = none) :
+    step s (.msg (.event sub pub p) beh) = (s, [.raise_ .protocolError]) := by
+  simp [step, onMessage, hs, onEstablished, h]
+
+/-- the race, on a concrete history: EVENT between `unsubscribe()` and UNSUBSCRIBED is dropped, after UNSUBSCRIBED it
+is a violation -/
+example : (run (init .sync) [.open_, .msg (.welcome 1) [], .api (.subscribe 1 9 none .ok), .msg (.subscribed 1 77) [],
+      .msg (.event 77 1 { args := some [5] }) [], .api (.unsubscribe 0 .ok), .msg (.event 77 2 {}) [],
+      .msg (.unsubscribed 2) [], .msg (.event 77 3 {}) [], .msg (.event 78 4 {}) []]).2.drop 4 =
+    [[.invoke 0 1 [5] []], [.send { typ := .unsubscribe, req := 2, uri := 77 }, .ret 1], [],
+     [.complete 1 (.value (.int 0)), .callback 1 (.value (.int 0))], [.raise_ .protocolError], [.raise_ .protocolError]] := by decide
+
+
+/-! ## no_call_after_unsubscribe -/
+
+theorem count_objsOf_aupd_gen (x : Nat) {subs : List (SubId × List SubRec)} {sid : SubId} {l : List SubRec} (l' : List SubRec)
+    (h : alookup sid subs = some l) :
+    (objsOf (aupd sid l' subs)).count x + (l.map (·.obj)).count x = (objsOf subs).count x + (l'.map (·.obj)).count x := by
+  induction subs with
+  | nil => simp at h
+  | cons e t ih =>
+    obtain ⟨k, v⟩ := e
+    simp only [alookup_cons] at h
+    by_cases hk : k = sid
+    · subst hk
+      simp at h; subst h
+      simp only [aupd, if_true, objsOf, List.flatMap_cons, List.count_append]
+      omega
+    · simp only [hk, if_false] at h
+      have := ih h
+      simp only [aupd, hk, if_false, objsOf, List.flatMap_cons, List.count_append] at this ⊢
+      omega
+
+theorem count_removeObj {o : Nat} {l : List SubRec} (h : ∃ r ∈ l, r.obj = o) :
+    ((removeObj o l).map (·.obj)).count o + 1 = (l.map (·.obj)).count o := by
+  induction l with
+  | nil => simp at h
+  | cons r l ih =>
+    simp only [removeObj]
+    split
+    · next e => simp only [List.map_cons, count_cons', e]; simp
+    · next ne =>
+      obtain ⟨r', hr', e'⟩ := h
+      rcases List.mem_cons.mp hr' with h1 | h1
+      · subst h1; exact absurd e' ne
+      · have := ih ⟨r', h1, e'⟩
+        simp only [List.map_cons, count_cons'] at this ⊢
+        omega
+
+/-- a successful `unsubscribe()` leaves the `Subscription` attached nowhere -/
+theorem unsubscribe_makes_gone {s : Sess} (hi : Inv s) {o : Nat} {sid : SubId} (hf : findSub o s.subs = some sid)
+    (ht : s.transport = true) (snd : SendRes) : Gone o (apiStep s (.unsubscribe o snd)).1 := by
+  obtain ⟨l, hl, hm⟩ := findSub_some hf
+  have hocc := hi.2.subs.1 o
+  have hpos : 0 < (objsOf s.subs).count o := by
+    obtain ⟨r, hr, e⟩ := hm
+    exact List.count_pos_iff.mpr (e ▸ mem_objsOf hl hr)
+  have hcnt := count_objsOf_aupd_gen o (removeObj o l) hl
+  have hrem := count_removeObj hm
+  simp only [occ] at hocc
+  have h1 : Gone o { s with subs := aupd sid (removeObj o l) s.subs } := by
+    refine ⟨by simp only []; omega, by show (futsOf (s.tbl .subscribe)).count o = 0; omega, ?_, fun x hx => (hi.2.cbq x hx).2⟩
+    exact hi.2.subs.2 o (by simp only [occ]; omega)
+  have hnt : (!s.transport) = false := by simp [ht]
+  simp only [apiStep, apiUnsubscribe, hf, hnt, hl, Option.getD_some, Bool.false_eq_true, ↓reduceIte]
+  split
+  · exact (request_gone h1 _ _ _ (fun _ => rfl) _ _).1
+  · unfold futureSuccess
+    have h2 : Gone o { ({ s with subs := aupd sid (removeObj o l) s.subs } : Sess) with
+        futs := s.futs ++ [{ kind := .unsubscribe, cell := some (.value (.int (removeObj o l).length)), count := 1 }] } :=
+      h1.of (fun _ => Nat.le_refl _) (List.Sublist.refl _) (by simp) (fun x hx => Or.inl hx)
+    exact (emitCb_gone h2 (x := .callback s.futs.length (.value (.int (removeObj o l).length))) rfl).1
+
+/-- `no_call_after_unsubscribe`: after any history `h1`, once `Subscription.unsubscribe()` has been called on an
+attached handler `o`, **no** continuation `h2` of the history — events for any id, further subscribes and replies in
+any order, wrap-arounds of ids, anything user code does — ever invokes the handler of `o` again. -/
+theorem no_call_after_unsubscribe (mode : Sched) (h1 : List SEv) (o : Nat) (snd : SendRes) (h2 : List SEv) :
+    let s := runState (init mode) h1
+    findSub o s.subs ≠ none → s.transport = true →
+    ∀ x ∈ runOuts (apiStep s (.unsubscribe o snd)).1 h2, invokesObj o x = false := by
+  intro s hf ht
+  cases hfs : findSub o s.subs with
+  | none => exact absurd hfs hf
+  | some sid =>
+    have hi : Inv s := (run_inv (init_inv mode) h1).post
+    exact (run_gone (unsubscribe_makes_gone hi hfs ht snd) h2).2
+
+/-- the same inside one EVENT dispatch: when a handler synchronously unsubscribes a sibling `o`, the rest of the
+fan-out (from any cursor position) does not call `o` -/
+theorem no_call_after_synchronous_unsubscribe {s : Sess} (hi : Inv s) {o : Nat} (hf : findSub o s.subs ≠ none)
+    (ht : s.transport = true) (fuel : Nat) (sub : SubId) (idx : Nat) (args : Args) (kw : List (Key × KwVal)) (beh : List HAct) :
+    ∀ x ∈ (dispatch fuel (apiStep s (.unsubscribe o .ok)).1 sub idx args kw beh).2, invokesObj o x = false := by
+  cases hfs : findSub o s.subs with
+  | none => exact absurd hfs hf
+  | some sid => exact ((goneLift o).dispatch fuel (unsubscribe_makes_gone hi hfs ht .ok) sub idx args kw beh).2
+
+/-- non-vacuity: handler 1 is called for the first event, unsubscribed, and not called for the second -/
+example : (runOuts (init .sync) [.open_, .msg (.welcome 1) [], .api (.subscribe 1 9 none .ok), .api (.subscribe 2 9 none .ok),
+      .msg (.subscribed 1 77) [], .msg (.subscribed 2 77) [], .msg (.event 77 1 {}) [], .api (.unsubscribe 0 .ok),
+      .msg (.event 77 2 {}) []]).filter isInvoke =
+    [.invoke 0 1 [] [], .invoke 1 2 [] [], .invoke 1 2 [] []] := by decide
+
 end Abverif.Session
